@@ -77,6 +77,14 @@ func (s *c16bBackend) SaveDevicesBillingStat(srv grpc.ClientStreamingServer[back
 			s.mu.Unlock()
 			return status.Error(codes.Internal, "scripted: failed in the middle of the stream")
 		}
+		if mode == "earlyok" && n == 1 {
+			// a backend that ends the call with OK without having read (or kept) the stream: whatever the
+			// status says, the records the client could not send were not delivered
+			s.mu.Lock()
+			s.last = "rejected"
+			s.mu.Unlock()
+			return srv.SendAndClose(&emptypb.Empty{})
+		}
 	}
 	s.mu.Lock()
 	defer s.mu.Unlock()
@@ -141,7 +149,7 @@ func TestVerifC16Uploader(t *testing.T) {
 		steps := 15 + rng.Intn(30)
 		bulk := vhEnvInt("VERIF_BULK", 30000)
 		refresh := func(mode string) {
-			if mode == "mid" && beh%2 == 0 {
+			if (mode == "mid" && beh%2 == 0) || mode == "earlyok" {
 				// a large batch: the backend's abort arrives while the client is still sending, so the
 				// failure surfaces in Send (as io.EOF) and not in CloseAndRecv.  The filler devices are
 				// not part of the judged set; the judged devices' records travel in the same batch.
@@ -182,7 +190,7 @@ func TestVerifC16Uploader(t *testing.T) {
 				dd, _ := snapshot()
 				out.Emit(c16bEvent{Ev: "Record", D: d, Beh: beh, Delivered: dd})
 			} else {
-				refresh([]string{"ok", "ok", "open", "mid", "final"}[rng.Intn(5)])
+				refresh([]string{"ok", "ok", "open", "mid", "final", "ok", "earlyok"}[rng.Intn(7)])
 			}
 		}
 		refresh("ok")
